@@ -1094,6 +1094,7 @@ func emitCore(o *hx.Out, p *Prog, cr *compRes, gores map[string]goRes) {
 		return
 	}
 	o.Line(p.CoreTokens, hx.Hex(cr.script))
+	o.Line("layout", "ok")
 	offs := map[string]int{}
 	for _, m := range cr.methods {
 		offs[m.id] = m.start
